@@ -96,6 +96,7 @@ fn stream_decode(d: &[u8], po: u64, hl: usize, trickle: bool) -> Result<Result<(
             Ok(e) => Ok((e, rem)),
             Err(e) if e.kind() == io::ErrorKind::UnexpectedEof => Err("Eof"),
             Err(e) if e.kind() == io::ErrorKind::Other => Err("BadType"),
+            Err(e) if e.kind() == io::ErrorKind::InvalidData => Err("TooLong"),
             Err(_) => Err("Io"),
         }
     }))
@@ -251,6 +252,7 @@ fn imp(c: &Case) -> String {
                 match gix_features::decode::leb64_from_read(&mut r) {
                     Ok((v, n)) => format!("ok {v} {n}"),
                     Err(e) if e.kind() == io::ErrorKind::UnexpectedEof => "err Eof".into(),
+                    Err(e) if e.kind() == io::ErrorKind::InvalidData => "err TooLong".into(),
                     Err(_) => "err Io".into(),
                 }
             });
